@@ -17,7 +17,7 @@
    pairwise distinct, on leaves only) plus distinct node identities, which every Python tree has. *)
 From Coq Require Import ZArith QArith List Bool.
 From DV Require Import Model.PyPrims Model.Tree Model.C14Model Model.C14Spec Model.C14Spec2 Model.C14GenPrims Model.C14GenObj Model.C14GenMrcaPrims Gen.Pdm.
-From DV Require Import Proofs.C14GenTop.
+From DV Require Import Proofs.C14GenTop Proofs.C14NjGen.
 Import ListNotations.
 Open Scope Z_scope.
 
@@ -279,6 +279,33 @@ Theorem gen_nj_recovers_tree_up_to_five_leaves :
                    exists q d, qdist T a b = Some q /\ dist t a b = Some d /\ (q == uq d)%Q.
 Proof. exact gen_nj_recovers_tree_small_top. Qed.
 Print Assumptions gen_nj_recovers_tree_up_to_five_leaves.
+
+(* UNCONDITIONAL (any number of taxa; Props/C14.v q_criterion, nj_recovers_additive, nj_recovers_tree): the
+   generated nj_tree program, on every complete symmetric matrix satisfying the strictly resolved
+   four-point condition, in every iteration order, returns a tree (read off the heap by rebuild) whose
+   path distance between any two taxa is the matrix entry; in particular on the distance matrix of every
+   binary tree with positive internal edge lengths. *)
+Theorem gen_nj_recovers_additive :
+  forall (none_key : Z) (M : tbl Q) (order : list Z),
+  NoDup order -> order <> [] ->
+  mcomplete M order -> msymmetric M order -> mfour_point_strict M order ->
+  exists T i hp, PDM_nj_tree none_key (length order) M order = Ok (i, hp) /\
+                 (forall fuel, (qdepth T <= fuel)%nat -> rebuild fuel hp i = Ok T) /\
+                 forall a b, In a order -> In b order -> a <> b -> exists q, qdist T a b = Some q /\ (q == mval M a b)%Q.
+Proof. exact gen_nj_recovers_additive_top. Qed.
+Print Assumptions gen_nj_recovers_additive.
+
+Theorem gen_nj_recovers_tree :
+  forall (none_key : Z) (t : tree) (p : pdm) (order : list Z),
+  rbin t -> good_leaves t -> t_kids t <> [] -> positive_internal t -> nonneg_lengths t ->
+  compile_from_tree t = Ok p ->
+  NoDup order -> order <> [] -> (forall a, In a order -> In (Some a) (leaf_taxa t)) ->
+  exists T i hp, PDM_nj_tree none_key (length order) (qtable p true) order = Ok (i, hp) /\
+                 (forall fuel, (qdepth T <= fuel)%nat -> rebuild fuel hp i = Ok T) /\
+                 forall a b, In a order -> In b order -> a <> b ->
+                   exists q d, qdist T a b = Some q /\ dist t a b = Some d /\ (q == uq d)%Q.
+Proof. exact gen_nj_recovers_tree_top. Qed.
+Print Assumptions gen_nj_recovers_tree.
 
 (* non-vacuity: a tree in the domain, both sides computed; the generated descent on it *)
 Theorem gen_compile_from_tree_example :
